@@ -77,8 +77,35 @@ partial def dval : DM Val := do
       let es ← dentries
       let a ← dalloc (.map es)
       pure (.map .string .any a)
+  | 'S' => do
+      -- S<type name, hex>{<field, hex>:<value>,…}   a struct value of the harness family
+      let ty ← dhex
+      dexpect '{'
+      let fs ← dfields
+      pure (.struct (String.ofList (ty.map fun c => Char.ofNat c.toNat)) fs)
+  | 'P' => do
+      -- P<pointer type name, hex>&<value>   a non-nil pointer;   Q<pointer type name, hex>  a typed nil pointer
+      let ty ← dhex
+      dexpect '&'
+      let v ← dval
+      pure (.ptr (String.ofList (ty.map fun c => Char.ofNat c.toNat)) (some v))
+  | 'Q' => do
+      let ty ← dhex
+      pure (.ptr (String.ofList (ty.map fun c => Char.ofNat c.toNat)) none)
   | _ => failure
 where
+  dfields : DM (List (Bytes × Val)) := do
+    if (← dpeek) == some '}' then let _ ← dnext; pure []
+    else dfieldsRest []
+  dfieldsRest (acc : List (Bytes × Val)) : DM (List (Bytes × Val)) := do
+    let k ← dhex
+    dexpect ':'
+    let v ← dval
+    let acc := acc ++ [(k, v)]
+    match (← dnext) with
+    | '}' => pure acc
+    | ',' => dfieldsRest acc
+    | _ => failure
   dlist : DM (List Val) := do
     if (← dpeek) == some ']' then let _ ← dnext; pure []
     else
